@@ -236,6 +236,14 @@ def corpus():
         ["validate_schema", True], ["validate"]]})
     out.append({"kind": "history", "spec": sp, "ops": [
         ["validate"], ["default", "Query", bad, True], ["validate_schema", False], ["validate"]]})
+    # seeded C13-h: the validator must see through functools.wraps pass-through decorators
+    badw = [["root", "PK", False], ["ctx", "PK", False], ["info", "PK", False]]       # lacks the argument x
+    for shape in ("wrapped", "wrapped2"):
+        out.append({"kind": "sig", "sig": badw, "args": [["x", "Int!", None]], "shape": shape})
+        out.append({"kind": "history", "spec": dict(sp, shape_seed=_seed_for(badw, shape)), "ops": [
+            ["resolver", "Query", "a", R3 + [["x", "PK", True]], False], ["validate"],
+            ["resolver", "Query", "a", badw, True], ["validate"],
+            ["default", "Query", badw, False], ["validate"]]})
     # DESIGN section 6 row 39, second half / fix C13-05: schema.default_resolver = f
     out.append({"kind": "history", "spec": sp, "ops": [
         ["validate"], ["assign_default", bad], ["validate"], ["assign_default", R3 + [["kw", "VK", False]]],
@@ -243,9 +251,21 @@ def corpus():
     return out
 
 
+def _seed_for(sig, shape):
+    """a shape seed under which [sig] is presented as [shape]"""
+    for seed in range(1, len(G.SHAPES) + 1):
+        if G.shape_for(sig, seed) == shape:
+            return seed
+    raise ValueError(shape)
+
+
 def _with_resolvers(rng, spec):
-    """attach resolvers from the grid to some fields / object defaults"""
+    """attach resolvers from the grid to some fields / object defaults; most of the time the
+    callables are presented in other shapes than bare functions (functools.wraps pass-through
+    decorators, partial, bound / class / static methods, callable objects, lambdas)"""
     sp = copy.deepcopy(spec)
+    if rng.random() < 0.7:
+        sp["shape_seed"] = rng.randint(1, 10 ** 6)
     for td in sp["types"]:
         if td["kind"] not in ("object", "interface"):
             continue
@@ -262,7 +282,7 @@ def _with_resolvers(rng, spec):
 def _good_or_random_sig(rng, args):
     names = [a["name"] for a in args]
     plain = len(set(names)) == len(names) and all(
-        n.isidentifier() and n not in ("root", "ctx", "info") for n in names)
+        n.isascii() and n.isidentifier() and n not in ("root", "ctx", "info") for n in names)
     if not plain:
         return list(R3) + [["kwargs", "VK", False]] if rng.random() < 0.7 else list(R3)
     if rng.random() < 0.5:
@@ -353,7 +373,8 @@ def generate(rng, tier):
             cases.append({"kind": "schema", "spec": cur, "injected": inj, "single": n == 1 and len(inj) == 1})
         # histories
         if i % 2 == 0:
-            sp = _with_resolvers(rng, code) if rng.random() < 0.4 else code
+            sp = _with_resolvers(rng, code) if rng.random() < 0.4 else (
+                dict(code, shape_seed=rng.randint(1, 10 ** 6)) if rng.random() < 0.6 else code)
             cases.append({"kind": "history", "spec": sp, "ops": _history(rng, sp)})
     # a resolver only the signature rule rejects, then a structural-only validate_schema, then validate()
     bad_sigs = [[["root", "PK", False]], R3 + [["extra", "PK", False]], [["ctx", "KO", False]]]
@@ -436,11 +457,28 @@ def generate(rng, tier):
             if not G.sig_valid_python(sig):
                 sig = G.gen_sig(rng, [a[0] for a in args])
         cases.append({"kind": "sig", "sig": sig, "args": args})
+    # every signature case is presented in one of the resolver shapes
+    k = 0
+    for c in cases:
+        if c["kind"] == "sig":
+            c["shape"] = G.SHAPES[k % len(G.SHAPES)]
+            k += 1
+    # good -> bad -> good registrations of a field resolver and of a type default resolver, the bad one
+    # (and the good ones) in every shape
+    goodr = R3 + [["x", "PK", True]]
+    for shape in G.SHAPES:
+        for badr in ([["root", "PK", False], ["ctx", "PK", False], ["info", "PK", False]], [["root", "PK", False]]):
+            sp = dict(_mini([_obj("Query", [("a", "Int", [("x", "Int")], None)])]), shape_seed=_seed_for(badr, shape))
+            cases.append({"kind": "history", "spec": sp, "ops": [
+                ["resolver", "Query", "a", goodr, False], ["validate"], ["resolver", "Query", "a", badr, True],
+                ["validate"], ["resolver", "Query", "a", goodr, True], ["validate"],
+                ["default", "Query", badr, False], ["validate"], ["resolver", "Query", "a", badr, True], ["validate"],
+                ["default", "Query", R3 + [["kw", "VK", False]], True], ["resolver", "Query", "a", goodr, True], ["validate"]]})
     return cases
 
 
 # ------------------------------------------------------------------ implementation side
-def _apply_op(sch, op):
+def _apply_op(sch, op, seed=0):
     try:
         if op[0] == "validate":
             try:
@@ -460,12 +498,12 @@ def _apply_op(sch, op):
             except SchemaValidationError as e:
                 return ["direct_invalid", _errors(e.errors)]
         if op[0] == "assign_default":
-            sch.default_resolver = G.make_fn(op[1])     # plain attribute assignment
+            sch.default_resolver = G.make_shaped(op[1], seed)     # plain attribute assignment
             return ["done"]
         if op[0] == "resolver":
-            sch.register_resolver(op[1], op[2], G.make_fn(op[3]), allow_override=op[4])
+            sch.register_resolver(op[1], op[2], G.make_shaped(op[3], seed), allow_override=op[4])
         elif op[0] == "default":
-            sch.register_default_resolver(op[1], G.make_fn(op[2]), allow_override=op[3])
+            sch.register_default_resolver(op[1], G.make_shaped(op[2], seed), allow_override=op[3])
         elif op[0] == "subscription":
             sch.register_subscription(op[1], op[2], _SUBSCRIBER, allow_override=op[3])
         return ["done"]
@@ -491,6 +529,19 @@ def _call_shapes(args):
             yield always + list(sub)
 
 
+def _sig_build(case):
+    """Query.f(args): Int whose resolver has the signature, presented in the case's shape"""
+    sch = G.build(_sig_schema(None, case["args"]))
+    sch.types["Query"].fields[0].resolver = G.make_fn(case["sig"], case.get("shape", "bare"))
+    return sch
+
+
+def _vis(sig, seed):
+    """the parameter list the validator sees for this resolver of the case (inspect.signature,
+    following __wrapped__), read from the real callable"""
+    return G.sig_of(G.make_shaped(sig, seed))
+
+
 def run_impl(case):
     k = case["kind"]
     if k == "schema":
@@ -501,14 +552,15 @@ def run_impl(case):
         return obs
     if k == "history":
         sch = G.build(case["spec"])
-        return {"steps": [_apply_op(sch, op) for op in case["ops"]]}
+        seed = case["spec"].get("shape_seed", 0)
+        return {"steps": [_apply_op(sch, op, seed) for op in case["ops"]]}
     if k == "subtype":
         sch = _sub_schema()
         return {"subtype": bool(sch.is_subtype(_sub_type(case["t"]), _sub_type(case["u"])))}
     if k == "sig":
-        sch = G.build(_sig_schema(case["sig"], case["args"]))
+        sch = _sig_build(case)
         obs = _validate(sch)
-        fn = G.make_fn(case["sig"])
+        fn = G.make_fn(case["sig"], case.get("shape", "bare"))
         fails, shapes = [], []
         for names in _call_shapes(case["args"]):
             try:
@@ -540,17 +592,18 @@ def _cty(t):
     return "(%s %s)" % ("TyList" if t[0] == "L" else "TyNonNull", _cty(t[1]))
 
 
-def _cop(op):
+def _cop(op, seed=0):
     if op[0] == "validate":
         return "OpValidate"
     if op[0] == "validate_schema":
         return "(OpValidateSchema %s)" % ser.cbool(op[1])
     if op[0] == "assign_default":
-        return "(OpAssignDefault %s)" % ("None" if op[1] is None else "(Some %s)" % _csig(op[1]))
+        return "(OpAssignDefault %s)" % ("None" if op[1] is None else "(Some %s)" % _csig(_vis(op[1], seed)))
     if op[0] == "resolver":
-        return "(OpRegisterResolver %s %s %s %s)" % (ser.cstr(op[1]), ser.cstr(op[2]), _csig(op[3]), ser.cbool(op[4]))
+        return "(OpRegisterResolver %s %s %s %s)" % (ser.cstr(op[1]), ser.cstr(op[2]), _csig(_vis(op[3], seed)),
+                                                     ser.cbool(op[4]))
     if op[0] == "default":
-        return "(OpRegisterDefault %s %s %s)" % (ser.cstr(op[1]), _csig(op[2]), ser.cbool(op[3]))
+        return "(OpRegisterDefault %s %s %s)" % (ser.cstr(op[1]), _csig(_vis(op[2], seed)), ser.cbool(op[3]))
     return "(OpRegisterSubscription %s %s %s)" % (ser.cstr(op[1]), ser.cstr(op[2]), ser.cbool(op[3]))
 
 
@@ -576,14 +629,17 @@ def to_coq(case, obs):
     if k == "schema":
         return "(CaseSchema %s %s %s)" % (G.cschema(G.build(case["spec"])), _cobs(obs), _cobs(obs["structural"]))
     if k == "history":
-        return "(CaseHistory %s %s %s)" % (G.cschema(G.build(case["spec"])), ser.clist(case["ops"], _cop),
+        seed = case["spec"].get("shape_seed", 0)
+        return "(CaseHistory %s %s %s)" % (G.cschema(G.build(case["spec"])),
+                                           ser.clist(case["ops"], lambda op: _cop(op, seed)),
                                            ser.clist(obs["steps"], _cstep))
     if k == "subtype":
         return "(CaseSubtype sub_types %s %s %s)" % (_cty(case["t"]), _cty(case["u"]), ser.cbool(obs["subtype"]))
-    sch = G.build(_sig_schema(case["sig"], case["args"]))
+    sch = _sig_build(case)
     args = list(sch.types["Query"].fields[0].arguments)
     return "(CaseSig %s %s %s %s)" % (
-        _csig(case["sig"]), ser.clist(args, G.carg), ser.clist(obs.get("errors", []), _cverr),
+        _csig(G.sig_of(sch.types["Query"].fields[0].resolver)), ser.clist(args, G.carg),
+        ser.clist(obs.get("errors", []), _cverr),
         ser.clist(obs["shapes"], lambda c: "(%s, %s)" % (ser.clist(c[0], ser.cstr), ser.cbool(c[1]))))
 
 
@@ -593,12 +649,15 @@ def show_expr(case, obs):
         t = G.cschema(G.build(case["spec"]))
         return "(model_C13 %s, validate_structural %s)" % (t, t)
     if k == "history":
-        return "run (initial %s) %s" % (G.cschema(G.build(case["spec"])), ser.clist(case["ops"], _cop))
+        seed = case["spec"].get("shape_seed", 0)
+        return "run (initial %s) %s" % (G.cschema(G.build(case["spec"])),
+                                        ser.clist(case["ops"], lambda op: _cop(op, seed)))
     if k == "subtype":
         return "is_subtype_model sub_types %s %s" % (_cty(case["t"]), _cty(case["u"]))
-    sch = G.build(_sig_schema(case["sig"], case["args"]))
+    sch = _sig_build(case)
     return "resolver_errors [s \"Query\"; s \"f\"] %s %s" % (
-        _csig(case["sig"]), ser.clist(list(sch.types["Query"].fields[0].arguments), G.carg))
+        _csig(G.sig_of(sch.types["Query"].fields[0].resolver)),
+        ser.clist(list(sch.types["Query"].fields[0].arguments), G.carg))
 
 
 def nontrivial(case, obs):
